@@ -419,6 +419,12 @@ impl Writer for ProtobufWriter<'_> {
 
     #[inline]
     fn write_null<C: null::Constraint>(&mut self, _value: &Null) -> Result<(), Self::Error> {
+        // NULL has its own field number (see the schema generator); as variant of a oneof the
+        // (empty) field needs to be present to be able to identify the variant
+        let tag = self.state.tag_counter + 1;
+        self.buffer.write_tagged_bytes(tag, &[])?;
+        self.state.tag_counter = tag;
+        self.state.format = Some(Format::LengthDelimited);
         Ok(())
     }
 }
